@@ -63,6 +63,7 @@ type World struct {
 	Nodes    []*SimNode
 	ByID     map[hotstuff.ID][]int
 	Inflight []Msg
+	Sent     []Msg // every message ever put on the wire (the adversary sees all of it)
 	Truth    *fix.Truth
 	Used     struct{ Timeouts, Dups, Byz int }
 	Blocks   map[hotstuff.Hash]*hotstuff.Block // every block ever seen on the wire or created
@@ -175,6 +176,7 @@ func (w *World) addInflight(m Msg) {
 	w.seq++
 	m.Seq = w.seq
 	w.Inflight = append(w.Inflight, m)
+	w.Sent = append(w.Sent, m)
 }
 
 func (w *World) timerCount(slot int) int { return w.fired[slot] }
